@@ -43,7 +43,7 @@ def run_lattice(run, prop, thorough, extra_want=()):
         if key in seen:
             continue
         seen.add(key)
-        run.violation({"fam": f["fam"], "clause": f["clause"], "tails": f["tails"], "dtype": f.get("dtype"), "bins": len(f["par"]["ws"])}, "%s [%s]: %s" % (f["desc"], f.get("dtype"), f["detail"]), {"kind": "spline", "par": f["par"], "clause": f["clause"]})
+        run.violation({"fam": f["fam"], "clause": f["clause"], "tails": f["tails"], "dtype": f.get("dtype"), "bins": len(f["par"]["ws"])}, "%s [%s]: %s" % (f["desc"], f.get("dtype"), f["detail"]), {"kind": "spline", "par": f["par"], "clause": f["clause"], "variant": f.get("variant", 0)})
     return cases
 
 
@@ -61,7 +61,7 @@ def replay_spline(run, prop, c):
             continue
         case = SL.to_case(parse_state(blk))
         if SL.par_key(case["par"]) == SL.par_key(par):
-            for f in eval_case(case, {prop}):
+            for f in eval_case(case, {prop}, variant=c.get("variant", 0)):
                 if f["prop"] == prop:
                     run.violation({"fam": f["fam"], "clause": f["clause"]}, "replayed: " + f["detail"], c)
             return
